@@ -16,7 +16,11 @@ SPEC = {
         "C01.sampleConOmegaBisect_sound", "C01.sampleConMuBisect_sound", "C01.sampleConEtaBisect_sound", "C01.sampleConMuPhi_sound",
         "C01.sampleConChiPhi_sound", "C01.sampleConMuChi_sound",
         "C01.ecp_of_euler", "C01.mec_of_euler", "C01.rot_eq_of_row0_col2", "C01.sampleConMu_sound", "C01.sampleConPhi_sound", "C01.sampleFromChiEta_sound",
-        "C01.sampleConChi_sound", "C01.sampleConEta_sound", "C01.remainingSample_sound"]},
+        "C01.sampleConChi_sound", "C01.sampleConEta_sound", "C01.remainingSample_sound", "C01.calcN_generic",
+        "C01.sampleConEtaPhi_sound", "C01.sampleConEtaChi_sound", "C01.twoSampleDetector_sound",
+        "C01.rot_eq_of_row2_col1", "C01.rot_eq_of_row1_col1", "C01.phiAndQaz_sound", "C01.chiAndQaz_sound", "C01.refConChiPhi_sound", "C01.refConMuEta_sound",
+        "C01.refConChiEta_sound", "C01.refConChiMu_sound", "C01.refConMuPhi_sound", "C01.refConEtaPhi_sound", "C01.twoSampleReference_sound",
+        "C01.lastSampleAngle_sound", "C01.qazValue_sound", "C01.threeSample_sample_sound"]},
     "level": "proof",
     "rule": "all 185 implemented modes x requests built from random physical positions over (-180,180]^6 (so that solutions exist), oblique "
             "cells, rotated U, hkl- and lab-frame vectors of non-unit length, plus special-value requests (multiples of 30/45/90 deg, axis hkl) and "
@@ -47,6 +51,8 @@ def requests(ctx, per_mode, special_per_mode):
         for _ in range(special_per_mode):
             ub3, vals, hkl, wl = PL.special_request(ctx.rng, tr)
             out.append((ub3, vals, hkl, wl, "special"))
+    if special_per_mode:
+        out += PL.aligned_requests(ctx.rng, special_per_mode * 2)
     return out
 
 
@@ -83,12 +89,18 @@ def check_element(ub, hkl, wl, pos, va, hc):
 def oracle(ctx, widen=1):
     from diffcalc.hkl.calc import HklCalculation
     from diffcalc.hkl.constraints import Constraints
-    reqs = requests(ctx, ctx.scale(3, 200) * widen, ctx.scale(1, 50))
+    reqs = requests(ctx, ctx.scale(3, 200) * widen, ctx.scale(1, 50)) + PL.degenerate_requests(ctx.rng, ctx.scale(60, 3000) * widen)
     ok_modes = set()
     elements = 0
     for ub, vals, hkl, wl, tag in reqs:
         hc = HklCalculation(ub, Constraints(vals))
         res = S.run_impl("full", hc, hkl, wl)
+        if res[0] not in ("ok", "dce"):
+            # "the only alternatives are a correct position or a DiffcalcException"
+            ctx.violation(f"mode {sorted(vals)} hkl={tuple(round(x, 5) for x in hkl)} [{tag}]: get_position raised {res[0]}: {res[1][:100]}",
+                          {"constraints": vals, "hkl": list(hkl), "wl": wl, "UB": np.asarray(ub.UB).tolist()},
+                          {"kind": "other-exception", "class": res[0]})
+            continue
         if res[0] != "ok":
             continue
         ok_modes.add(tuple(sorted(vals)))
